@@ -6,7 +6,8 @@
 //! script := B_local B_rt C R G  nT task*  lp(start act*)  event*
 //! task   := kind len op*            kind odd = local (spawn_local), even = rt (tokio::spawn)
 //! op     := 0 (Log) | 1 (Recv own inbox) | 2 t (Send to inbox t) | 3 t (Join t) | 4 (Yield) | 5 (End)
-//! event  := delta kind lp(pre act*) lp(act*)     time = previous time + delta;  act := 0 t (Spawn t) | 1 t (Send t)
+//! event  := delta kind lp(pre act*) lp(act*)     time = previous time + delta
+//! act    := 0 t (Spawn t) | 1 t (Send t) | 2 _ (current().shutdown()) | 3 d (current().shutdow_and_restart_in(d))
 //!           `pre` runs in the `incoming` hook of the module's processing element (outside the runtime: only
 //!           Send has an effect there); kind odd = the element CONSUMES the message (handle_message is not called,
 //!           `act` is ignored), even = it passes it on and handle_message performs `act`.
@@ -14,12 +15,14 @@
 //! (the five tokio numbers are read by the model only: here they are whatever the pinned tokio has)
 //!
 //! Output, in execution order:
-//!   6 0 now            at_sim_start runs
+//!   6 0 now            at_sim_start runs (also after a restart; shutdown actions of `start` are only performed the first time)
+//!   7 0 now            Module::reset runs (the shutdown request of the event just closed is being carried out)
 //!   3 e now            the message of event e reaches the module (its processing element), now = SimTime::now()
 //!   2 task woken now   task polled; woken = SimTime::now() when it was spawned / its waker was last invoked
 //!   1 task now         task completed one op of its script (Recv/Join/Yield: when the await returned)
-//!   4 pl pr left       closes an event: polls of local tasks, polls of rt tasks during the event's
-//!                      block_on, left = 1 iff some task was woken/spawned and not yet polled when it returned
+//!   4 pl pr left       closes an event (written by the element's event_end hook, right after the exec): polls of local
+//!                      tasks, polls of rt tasks during the event's block_on, left = 1 iff some task was woken/spawned
+//!                      and not yet polled when it returned
 //!   5 pl pr left       the same for the two block_on calls of the tear-down (at_sim_end)
 use des::net::processing::ProcessingStack;
 use des::prelude::*;
@@ -54,11 +57,14 @@ enum Op {
 enum Act {
     Spawn(u64),
     Send(u64),
+    Shutdown,
+    Restart(u64),
 }
 
 struct Shared {
     log: Mutex<Vec<u64>>,
-    tx: Vec<UnboundedSender<()>>,
+    tx: Mutex<Vec<UnboundedSender<()>>>,
+    ending: AtomicBool,
     handles: Mutex<Vec<Option<JoinHandle<()>>>>,
     local: Vec<bool>,
     pending: Vec<AtomicBool>,
@@ -74,7 +80,7 @@ impl Shared {
     }
     /// closes the running event record (if any) with tag `tag`
     fn close(&self, tag: u64) {
-        if self.open.swap(false, SeqCst) || tag == 5 {
+        if self.open.swap(false, SeqCst) {
             let left = self.pending.iter().any(|p| p.load(SeqCst));
             let pl = self.polls_local.swap(0, SeqCst);
             let pr = self.polls_rt.swap(0, SeqCst);
@@ -82,7 +88,7 @@ impl Shared {
         }
     }
     fn send(&self, t: u64) {
-        if let Some(tx) = self.tx.get(t as usize) {
+        if let Some(tx) = self.tx.lock().unwrap().get(t as usize) {
             let _ = tx.send(());
         }
     }
@@ -168,9 +174,19 @@ struct Spawner {
 }
 
 impl Spawner {
-    fn perform(&mut self, acts: &[Act], may_spawn: bool) {
+    fn perform(&mut self, acts: &[Act], may_spawn: bool, may_shutdown: bool) {
         for a in acts {
             match *a {
+                Act::Shutdown => {
+                    if may_shutdown {
+                        current().shutdown();
+                    }
+                }
+                Act::Restart(d) => {
+                    if may_shutdown {
+                        current().shutdow_and_restart_in(Duration::from_nanos(d));
+                    }
+                }
                 Act::Spawn(t) => {
                     if !may_spawn {
                         continue;
@@ -205,16 +221,23 @@ struct ScriptElem {
 impl ProcessingElement for ScriptElem {
     fn incoming(&mut self, msg: Message) -> Option<Message> {
         let e = *msg.content::<u64>();
-        self.sh.close(4);
-        self.sh.open.store(true, SeqCst);
         self.sh.rec(3, e, now());
         let Some(ev) = self.events.get(e as usize) else { return Some(msg) };
-        self.sp.lock().unwrap().perform(&ev.pre, false);
+        self.sp.lock().unwrap().perform(&ev.pre, false, false);
         if ev.consume {
             None
         } else {
             Some(msg)
         }
+    }
+
+    fn event_start(&mut self) {
+        self.sh.open.store(true, SeqCst);
+    }
+
+    fn event_end(&mut self) {
+        let tag = if self.sh.ending.load(SeqCst) { 5 } else { 4 };
+        self.sh.close(tag);
     }
 }
 
@@ -223,6 +246,7 @@ struct ScriptModule {
     sp: Arc<Mutex<Spawner>>,
     events: Arc<Vec<Ev>>,
     start: Vec<Act>,
+    booted: bool,
 }
 
 impl Module for ScriptModule {
@@ -233,20 +257,44 @@ impl Module for ScriptModule {
     }
 
     fn at_sim_start(&mut self, _stage: usize) {
-        self.sh.open.store(true, SeqCst);
         self.sh.rec(6, 0, now());
-        self.sp.lock().unwrap().perform(&self.start, true);
+        let first = !self.booted;
+        self.booted = true;
+        self.sp.lock().unwrap().perform(&self.start, true, first);
+    }
+
+    /// buf_process carries out a shutdown: the module's runtime (and every task) is gone; fresh channels
+    fn reset(&mut self) {
+        self.sh.rec(7, 0, now());
+        let n = self.sh.local.len();
+        let mut sp = self.sp.lock().unwrap();
+        let mut txs = Vec::new();
+        sp.rxs.clear();
+        for _ in 0..n {
+            let (tx, rx) = unbounded_channel::<()>();
+            txs.push(tx);
+            sp.rxs.push(Some(rx));
+        }
+        *self.sh.tx.lock().unwrap() = txs;
+        for h in self.sh.handles.lock().unwrap().iter_mut() {
+            *h = None;
+        }
+        for p in self.sh.pending.iter() {
+            p.store(false, SeqCst);
+        }
+        self.sh.polls_local.store(0, SeqCst);
+        self.sh.polls_rt.store(0, SeqCst);
     }
 
     fn handle_message(&mut self, msg: Message) {
         let e = *msg.content::<u64>();
         if let Some(ev) = self.events.get(e as usize) {
-            self.sp.lock().unwrap().perform(&ev.acts, true);
+            self.sp.lock().unwrap().perform(&ev.acts, true, true);
         }
     }
 
     fn at_sim_end(&mut self) -> Result<(), RuntimeError> {
-        self.sh.close(4);
+        self.sh.ending.store(true, SeqCst);
         Ok(())
     }
 }
@@ -275,6 +323,8 @@ fn dec_acts(b: &[u64]) -> Vec<Act> {
         match (c.next(), c.next()) {
             (0, t) => out.push(Act::Spawn(t)),
             (1, t) => out.push(Act::Send(t)),
+            (2, _) => out.push(Act::Shutdown),
+            (3, d) => out.push(Act::Restart(d.max(1))),
             _ => break,
         }
     }
@@ -320,7 +370,8 @@ fn run_line(nums: &[u64]) -> Vec<u64> {
     }
     let sh = Arc::new(Shared {
         log: Mutex::new(Vec::new()),
-        tx: txs,
+        tx: Mutex::new(txs),
+        ending: AtomicBool::new(false),
         handles: Mutex::new((0..nt).map(|_| None).collect()),
         local: kinds,
         pending: (0..nt).map(|_| AtomicBool::new(false)).collect(),
@@ -332,7 +383,7 @@ fn run_line(nums: &[u64]) -> Vec<u64> {
 
     let mut sim = Sim::new(());
     let sp = Arc::new(Mutex::new(Spawner { sh: sh.clone(), tasks, rxs }));
-    sim.node("m", ScriptModule { sh: sh.clone(), sp, events: Arc::new(events), start });
+    sim.node("m", ScriptModule { sh: sh.clone(), sp, events: Arc::new(events), start, booted: false });
     let mref = sim.get(&ObjectPath::from("m")).expect("module m");
     let mut rt = Builder::seeded(1).quiet().build(sim.freeze());
     for (e, t) in times.iter().enumerate() {
@@ -340,7 +391,6 @@ fn run_line(nums: &[u64]) -> Vec<u64> {
         rt.handle_message_on(mref.clone(), msg, SimTime::from_duration(Duration::from_nanos(*t)));
     }
     let res = rt.run();
-    sh.close(5);
     // the handles still in the table are detached here, after the module's runtime is gone
     let mut out = sh.log.lock().unwrap().clone();
     if res.is_err() {
